@@ -6,6 +6,8 @@ mod lattice;
 mod resp;
 mod routing;
 mod digest;
+mod deltas;
+mod wal_codec;
 use std::panic;
 
 pub struct Found {
@@ -46,6 +48,7 @@ fn main() {
         "resp_codec" => resp::search(&pid, &oid, seed),
         "routing" => routing::search(&pid, &oid, seed),
         "digest" => digest::search(&pid, &oid, seed),
+        "wal_codec" => wal_codec::search(&pid, &oid, seed),
         _ => None,
     };
     match res {
